@@ -4,8 +4,7 @@ usage: tools/reseed.py [name-prefix ...]   -> seeded/REPORT.md, exit 1 if a seed
 import glob, json, os, re, subprocess, sys, time
 ROOT = os.path.dirname(os.path.dirname(os.path.abspath(__file__)))
 def sh(c, **k): return subprocess.run(c, shell=True, stdout=subprocess.PIPE, stderr=subprocess.STDOUT, text=True, **k)
-if sh("git -C /repo status --porcelain --untracked-files=no").stdout.strip():
-    sys.exit("reseed: /repo has local modifications; refusing to run")
+WT = "/tmp/wt/reseed"
 rows, bad = [], 0
 for d in sorted(glob.glob(os.path.join(ROOT, "seeded", "C*"))):
     name = os.path.basename(d)
@@ -13,15 +12,17 @@ for d in sorted(glob.glob(os.path.join(ROOT, "seeded", "C*"))):
         continue
     prop = name.split("-")[0]
     patch = os.path.join(d, "patch.diff")
-    r = sh("git -C /repo apply --check %s" % patch)
+    sh("git -C /repo worktree remove --force %s" % WT)
+    sh("git -C /repo worktree add --detach %s HEAD" % WT)
+    r = sh("git -C %s apply --check %s" % (WT, patch))
     if r.returncode != 0:
         rows.append((name, "patch does not apply to the current tree", "", "")); bad += 1
         continue
-    sh("git -C /repo apply %s" % patch)
+    sh("git -C %s apply %s" % (WT, patch))
     try:
-        t = time.time(); r = sh("cd %s && bin/check %s --tier quick" % (ROOT, prop), timeout=3600); w = time.time() - t
+        t = time.time(); r = sh("cd %s && VERIF_REPO=%s VERIF_EVIDENCE_DIR=%s/_evidence bin/check %s --tier quick" % (ROOT, WT, WT, prop), timeout=3600); w = time.time() - t
     finally:
-        sh("git -C /repo checkout -- .")
+        sh("git -C /repo worktree remove --force %s" % WT)
     keys = sorted(set(re.findall(r"^violation key=(\S+?):? ", r.stdout, re.M)))
     ok = r.returncode == 1 and "VIOLATION property=%s" % prop in r.stdout
     bad += 0 if ok else 1
